@@ -40,7 +40,7 @@ def int_parts(tier, seed):
         pows += [10 ** k - 1, 10 ** k, 10 ** k + 1]
     pows = [p for p in pows if p < 10 ** 15]
     if tier == 'thorough':
-        classes = GROUP_CLASSES_FULL
+        classes = [0, 1, 9, 10, 21, 100, 101, 999]      # 8^5 = 32,768 group combinations (the full 14^5 x all forms is 10^8+ leaves)
     else:
         # seed-selected block of digit classes, fully enumerated (6^5 = 7776 group combinations)
         extra = [9, 11, 19, 21, 101, 110, 20, 111, 10, 100][seed % 10]
@@ -159,7 +159,7 @@ def body(ch):
     ci = ch.pick_index('chunk', nchunks)
     ch.shard()
     n = ch.pick('int', ints[ci * CFG['chunk']:(ci + 1) * CFG['chunk']])
-    frac = ch.pick('frac', FRACS if (pool == 'small' or thorough) else FRACS_GROUPS)
+    frac = ch.pick('frac', FRACS if pool == 'small' else FRACS_GROUPS)
     carriers = [('', ''), CARRIER[cul]]
     if pool == 'small' and frac in ('', '5'):
         carriers = carriers + M[('amb', cul)]
